@@ -21,9 +21,9 @@ def _run(ctx):
         # one harness run serves all six properties (cached by binary+input)
         res = lib.vh(ctx, "rpkitree", beh, out_name="rpkitree%d" % i, cacheable=True, timeout=3000)
         results.append(res["per_property"][pid])
-    if pid == "C06":
+    if pid in ("C06", "C02"):
         import pubpoint
-        results.append(pubpoint.run_module(ctx, "C06"))
+        results.append(pubpoint.run_module(ctx, pid))
     r = lib.merge_results(*results)
     ctx.extra["worlds_exported"] = total
     ctx.assumptions += [
